@@ -160,6 +160,9 @@ func (ex *Exec) doReturn(st *State, fr *Frame, in *ssa.Return) bool {
 			ienv := &Env{fc: fc, heap: st.heap, oldHeap: st.heap, alloc: st.alloc(), oldAlloc: st.alloc(), vars: map[string]Val{oi.Param: {T: tc.ref, Typ: t}}, side: &st.pc}
 			fc.emit(st, "objinv."+tc.typ, "", "object invariant of "+tc.typ+": "+oi.Text, oi.Tags, ienv.evalBool(oi.E))
 		}
+		// vacuity guard: this return is reachable under the contract's assumptions (must be satisfiable)
+		fc.obs = append(fc.obs, &Obligation{Name: fc.name + "#cover.return", Func: fc.name, Kind: "cover", Tags: []string{"COVER"}, Clause: "some return of the function is reachable under its preconditions and invariants (vacuity guard)",
+			Goal: TTrue, PC: append([]*Term(nil), st.pc...), Path: strings.Join(st.path, " "), fc: fc, MustSat: true})
 		env := ex.envFor(st, extra)
 		fc.curObs = fc.observablesAt(st, results)
 		for i, e := range fr.contract.Ensures {
